@@ -1,6 +1,14 @@
 //! Group driver: runs the REAL kanidm code and records observed traces (ndjson) which TLC
 //! validates against the TLA+ specifications in /verif/spec. See /verif/DESIGN.md.
+#[macro_use]
+extern crate kanidmd_lib;
+
 use kvc::util::Opts;
+
+mod c38;
+mod c39;
+mod c40;
+mod common;
 
 fn main() {
     let args: Vec<String> = std::env::args().collect();
@@ -10,8 +18,10 @@ fn main() {
     }
     let opts = Opts::parse(&args[2..]);
     let rc = match args[1].as_str() {
+        "c38" => c38::run(&opts),
+        "c39" => c39::run(&opts),
+        "c40" => c40::run(&opts),
         other => {
-            let _ = &opts;
             eprintln!("unknown subcommand {other}");
             2
         }
